@@ -1,4 +1,5 @@
 // Unit `accept`: actix-server/src/accept.rs — every method of `Accept` on the dispatch and control path.
+//@assumes unit=server_cmd fns=server::run_sync
 // Text between `//@extract` and `//@end` is only the *contract*; signature and body are copied from /repo on every run.
 use vstd::prelude::*;
 verus! {
